@@ -4,6 +4,7 @@ import (
 	"bytes"
 	"encoding/binary"
 	"fmt"
+	"math"
 	"strconv"
 	"strings"
 	"time"
@@ -279,6 +280,15 @@ func m4Sample(r *rng) []byte {
 	}
 	if r.chance(1, 4) {
 		dev = append(dev, nest("STRM", klv("MAGN", 's', 6, 2, gmValueBytes(r, 12))))
+	}
+	// every kind of sensor reading gets its offsets: gyroscope and white balance too
+	if r.chance(1, 2) {
+		ny := r.intn(6)
+		dev = append(dev, nest("STRM", klv("SCAL", 's', 2, 1, beInts(2, 3755)), klv("GYRO", 's', 6, ny, gmValueBytes(r, 6*ny))))
+	}
+	if r.chance(1, 4) {
+		nw := 1 + r.intn(3)
+		dev = append(dev, nest("STRM", klv("WRGB", 'f', 12, nw, bytes.Repeat(beInts(4, int64(math.Float32bits(1.5))), 3*nw))))
 	}
 	return nest("DEVC", dev...)
 }
